@@ -492,13 +492,12 @@ Proof.
 Qed.
 
 (* ---- actions ---- *)
-(* how the annotated body relates to the original one; the middle case is the defect:
-   a present but empty body comes back absent *)
+(* how the annotated body relates to the original one: absent stays absent, present stays
+   present, and empty exactly when the original is empty *)
 Definition body_rel (b' b : option (list (cstmt E))) : Prop :=
   match b, b' with
   | None, None => True
-  | Some [], None => True
-  | Some l, Some l' => l <> [] /\ l' <> [] /\ erase_stmts l' = l /\ sok_list sok None l'
+  | Some l, Some l' => (l = [] <-> l' = []) /\ erase_stmts l' = l /\ sok_list sok None l'
   | _, _ => False
   end.
 Definition action_rel (a' a : action E) : Prop := a_pat a' = a_pat a /\ body_rel (a_body a') (a_body a).
@@ -518,12 +517,9 @@ Lemma ann_body_facts b bl : nocov_body b = true ->
 Proof.
   destruct b as [l|]; cbn [nocov_body Cover.ann_body]; intros Hn.
   - destruct (ann_stmts_rel l bl Hn) as ((R1 & R2 & R3 & R4) & S1 & N1).
-    destruct (ann_stmts l bl) as [r bl1] eqn:Hr. cbn [fst snd] in *.
-    destruct r as [|x r].
-    + pose proof (R3 eq_refl) as Hl. subst l. cbn. split; [exact I|]. split; [exact S1|]. split; [exact N1|]. reflexivity.
-    + cbn [tagged_body body_rel]. split.
-      * destruct l as [|y l]; [discriminate (R4 eq_refl)|]. split; [discriminate|]. split; [discriminate|]. split; assumption.
-      * split; [exact S1|]. split; [exact N1|]. rewrite tagged_erase_stmts, R1. reflexivity.
+    destruct (ann_stmts l bl) as [r bl1] eqn:Hr. cbn [fst snd tagged_body body_rel] in *.
+    split; [split; [split; assumption|split; assumption]|].
+    split; [exact S1|]. split; [exact N1|]. rewrite tagged_erase_stmts, R1. reflexivity.
   - cbn. split; [exact I|]. split; [apply Seg_nil|]. split; [|reflexivity].
     exists []. rewrite app_nil_r. split; reflexivity.
 Qed.
